@@ -46,6 +46,13 @@ func (fc *FCtx) evalCall(e *ast.CallExpr, st *State) []Val {
 		s := fc.U.opaque("Dropped")
 		return []Val{{T: fc.U.Const("dropped", s), S: s}}
 	}
+	if strings.HasPrefix(name, "(interface).") && recvExpr != nil {
+		if id, ok := unparen(recvExpr).(*ast.Ident); ok {
+			if v, ok := st.vars[info.ObjectOf(id)]; ok && v.S != nil && v.S.Name == "Iter" {
+				name = "(github.com/cosmos/cosmos-db.Iterator)." + strings.TrimPrefix(name, "(interface).")
+			}
+		}
+	}
 	if intr, ok := intrinsics[name]; ok {
 		if recvExpr != nil {
 			rv := fc.eval(recvExpr, st)
